@@ -799,6 +799,9 @@ func (w *verifWorld) SetExtReportsOnShutdown(b bool)      { w.extReportsOnShutdo
 func (w *verifWorld) StaleExtNext(id string) int {
 	return w.extNext("stale-extension", id).status
 }
+func (w *verifWorld) StaleExtInitError(id string) int {
+	return w.extInitError("stale-extension", id, "Extension.Stale").status
+}
 func (w *verifWorld) StaleExtExitError(id string) int {
 	return w.extExitError("stale-extension", id, "Extension.Stale").status
 }
